@@ -6,6 +6,8 @@ parameter variety.  Oracle: between start and normal completion of the operation
 clock advanced or every still-runnable spinner had at least one turn.
 """
 import itertools
+import sys
+import warnings
 from hypothesis import strategies as st
 
 import usim
@@ -381,6 +383,8 @@ class C20(Check):
 
     def run_case(self, case, tier='quick'):
         out = Outcome()
+        warnings.simplefilter('ignore')          # e.g. 'coroutine was never awaited' of refused operations
+        sys.unraisablehook = lambda u: None
         if case['op'] not in OPS:
             raise InvalidCase('unknown op')
         pp = case['p']
